@@ -340,6 +340,10 @@ def traffic_session(ctx, sid, prof, length=None):
             if rng.random() < 0.03:
                 off = rng.choice([HYPER // 2, HYPER // 4, -(HYPER // 4) - 1, 100000, -100000])
             fn = (src + off) % HYPER
+            if rng.random() < 0.04:
+                # the header has 32 bits: a frame number beyond the hyperframe that is congruent to a
+                # frame the clock is about to reach (never forwarded, never a reason to fail)
+                fn += HYPER * rng.choice([1, 2, 3, 100, 789])
             ver = trx.data_if._hdr_ver if rng.random() < 0.9 else 1 - trx.data_if._hdr_ver
             kind, bits = burst_bits(rng, gen)
             if not unique_tsc(bits):
